@@ -460,7 +460,18 @@ func WorkerMain(lookup func(prop, name string) *Scenario) {
 		os.Exit(2)
 	}
 	var st *Stats
-	if req.Iterative {
+	if req.Opt.PBound < 0 {
+		// a single execution of the default schedule
+		e, outcome, findings := RunDefault(sc)
+		st = &Stats{Scenario: sc.Name, Outcomes: map[string]int64{outcome: 1}, Complete: true, Execs: 1, Steps: int64(e.Steps), States: 1, CompletedP: -1, LastExecs: 1}
+		if e.Horizon {
+			st.Horizon = 1
+		}
+		for _, f := range findings {
+			st.Viol = append(st.Viol, Violation{Finding: f, Scenario: sc.Name})
+		}
+		st.Sample = []string{outcome}
+	} else if req.Iterative {
 		st = Iterative(sc, req.Opt)
 	} else {
 		st = Local(sc, req.Opt, req.Roots)
